@@ -1389,3 +1389,198 @@ Proof.
   intros Hn. split; [intros s Hs; apply otsdb_seconds_point; assumption|
                      intros m H1 H2; apply otsdb_millis_point; assumption].
 Qed.
+
+(* ================= 12. Elasticsearch single-document requests ================= *)
+(* ProcessPutPostSingleDocRequest: decode (numbers kept as literals), "_id" and "_type" assigned, marshal *)
+
+Lemma lookup_filter_key (q : bytes -> bool) k e :
+  lookup k (filter (fun f : field => q (fst f)) e) = if q k then lookup k e else None.
+Proof.
+  induction e as [|[k' v] e IH]; cbn [filter fst]; [destruct (q k); reflexivity|].
+  destruct (q k') eqn:Q; cbn [lookup].
+  - destruct (bytes_eqb k' k) eqn:E; [apply bytes_eqb_eq in E; subst k'; rewrite Q; reflexivity|exact IH].
+  - destruct (bytes_eqb k' k) eqn:E; [apply bytes_eqb_eq in E; subst k'; rewrite IH, Q; reflexivity|exact IH].
+Qed.
+
+(* decoding a document without repeated keys into a Go map keeps every member, its value treated by [num] *)
+Lemma lookup_doc_decode (num : sval -> sval) doc k :
+  NoDup (map fst doc) -> lookup k (doc_decode num doc) = option_map num (lookup k doc).
+Proof.
+  intros Hnd. unfold doc_decode. rewrite lookup_map_set_all_nodup.
+  - apply lookup_map_val.
+  - rewrite map_map. cbn [fst]. exact Hnd.
+Qed.
+
+(* the keys the handler assigns *)
+Theorem doc_id_stored num gen q t attrs :
+  lookup k_id (doc_build_with num gen q t attrs) = Some (SStr (doc_id gen q)).
+Proof.
+  unfold doc_build_with. destruct (dq_type q) as [|b ty].
+  - rewrite lookup_map_set, bytes_eqb_refl. reflexivity.
+  - rewrite !lookup_map_set.
+    change (bytes_eqb k_type k_id) with false. cbn iota. rewrite bytes_eqb_refl. reflexivity.
+Qed.
+
+Theorem doc_type_stored num gen q t attrs :
+  dq_type q <> [] -> lookup k_type (doc_build_with num gen q t attrs) = Some (SStr (dq_type q)).
+Proof.
+  intros H. unfold doc_build_with. destruct (dq_type q) as [|b ty]; [contradiction|].
+  rewrite lookup_map_set, bytes_eqb_refl. reflexivity.
+Qed.
+
+(* every other key is the decoded document's *)
+Lemma doc_lookup_other num gen q t attrs k : k <> k_id -> k <> k_type ->
+  lookup k (doc_build_with num gen q t attrs) = lookup k (doc_decode num (es_build t attrs)).
+Proof.
+  intros H1 H2. unfold doc_build_with.
+  assert (E1 : bytes_eqb k_id k = false) by (apply bytes_eqb_neq; congruence).
+  assert (E2 : bytes_eqb k_type k = false) by (apply bytes_eqb_neq; congruence).
+  destruct (dq_type q); rewrite ?lookup_map_set, ?E2, ?lookup_map_set, E1; reflexivity.
+Qed.
+
+(* MAIN: a document sent through a single-document request is stored with the fields the bulk protocol
+   stores for it: same keys, same values, number literals verbatim *)
+Theorem doc_fields_equal_bulk gen q t attrs k :
+  NoDup (map fst (es_build t attrs)) -> k <> k_id -> k <> k_type ->
+  lookup k (doc_build gen q t attrs) = lookup k (es_build t attrs).
+Proof.
+  intros Hnd H1 H2. unfold doc_build. rewrite doc_lookup_other by assumption.
+  rewrite lookup_doc_decode by exact Hnd. unfold keep_literal. destruct (lookup k (es_build t attrs)); reflexivity.
+Qed.
+
+Lemma extract_ts_lookup x e e' key clock :
+  lookup key e = lookup key e' -> extract_ts x e key clock = extract_ts x e' key clock.
+Proof. intros H. unfold extract_ts. rewrite H. reflexivity. Qed.
+
+Lemma index_ts_key_not_meta index : index_ts_key index <> k_id /\ index_ts_key index <> k_type.
+Proof. unfold index_ts_key. destruct (prefix_eqb p_jaeger index); split; vm_compute; discriminate. Qed.
+
+(* ... and with the same time, whatever the index (plain, jaeger-*, alias) and the clock *)
+Theorem doc_time_equal_bulk x gen q t attrs index dec now0 tsNow clock :
+  NoDup (map fst (es_build t attrs)) ->
+  final_ts x (doc_build gen q t attrs) index dec now0 tsNow clock =
+  final_ts x (es_build t attrs) index dec now0 tsNow clock.
+Proof.
+  intros Hnd. unfold final_ts, index_req_ts.
+  destruct (index_ts_key_not_meta index) as [H1 H2].
+  rewrite (extract_ts_lookup x (doc_build gen q t attrs) (es_build t attrs)); [reflexivity|].
+  apply doc_fields_equal_bulk; assumption.
+Qed.
+
+Lemma lookup_stored_fields k e :
+  lookup k (stored_fields e) = if negb (bytes_eqb k k_timestamp) then lookup k e else None.
+Proof. unfold stored_fields. exact (lookup_filter_key (fun k0 => negb (bytes_eqb k0 k_timestamp)) k e). Qed.
+
+Lemma lookup_stored_fields_doc k e :
+  lookup k (stored_fields_doc e) =
+  if negb (bytes_eqb k k_timestamp) && negb (bytes_eqb k k_id) && negb (bytes_eqb k k_type) then lookup k e else None.
+Proof.
+  unfold stored_fields_doc.
+  exact (lookup_filter_key (fun k0 => negb (bytes_eqb k0 k_timestamp) && negb (bytes_eqb k0 k_id) && negb (bytes_eqb k0 k_type)) k e).
+Qed.
+
+(* what a search returns: the bulk record; "_id" and "_type" are not shown *)
+Theorem doc_stored_equal_bulk gen q t attrs k :
+  NoDup (map fst (es_build t attrs)) -> k <> k_id -> k <> k_type ->
+  lookup k (store_cols (stored_fields_doc (doc_build gen q t attrs))) =
+  lookup k (store_cols (stored_fields (es_build t attrs))).
+Proof.
+  intros Hnd H1 H2. unfold store_cols. rewrite !lookup_map_val. f_equal.
+  rewrite lookup_stored_fields_doc, lookup_stored_fields.
+  rewrite (bytes_eqb_neq k k_id H1), (bytes_eqb_neq k k_type H2). cbn [negb]. rewrite !andb_true_r.
+  rewrite doc_fields_equal_bulk by assumption. reflexivity.
+Qed.
+
+Theorem doc_meta_hidden e :
+  lookup k_id (stored_fields_doc e) = None /\ lookup k_type (stored_fields_doc e) = None.
+Proof. rewrite !lookup_stored_fields_doc. split; reflexivity. Qed.
+
+(* the variants of the request (no id / id / _create / _update / document type / refresh, any generated id)
+   differ in "_id" and "_type" only *)
+Theorem doc_variants_agree num gen gen' q q' t attrs k : k <> k_id -> k <> k_type ->
+  lookup k (doc_build_with num gen q t attrs) = lookup k (doc_build_with num gen' q' t attrs).
+Proof. intros H1 H2. rewrite !doc_lookup_other by assumption. reflexivity. Qed.
+
+Theorem doc_id_of_url gen q b i : dq_id q = Some (b :: i) -> doc_id gen q = b :: i.
+Proof. unfold doc_id. intros ->. reflexivity. Qed.
+Theorem doc_id_generated gen q : dq_id q = None \/ dq_id q = Some [] -> doc_id gen q = gen.
+Proof. unfold doc_id. intros [-> | ->]; reflexivity. Qed.
+
+Lemma doc_decode_ext (num num' : sval -> sval) doc :
+  (forall k v, In (k, v) doc -> num v = num' v) -> doc_decode num doc = doc_decode num' doc.
+Proof.
+  intros H. unfold doc_decode. f_equal. apply map_ext_in. intros [k v] Hin. cbn [fst snd].
+  rewrite (H k v Hin). reflexivity.
+Qed.
+
+(* a decoder that goes through float64 is the same function on documents whose integers are below 2^53 ... *)
+Theorem doc_f64_same_when_exact gen q t attrs :
+  (forall k v, In (k, v) (es_build t attrs) -> exact53 v = true) ->
+  doc_build_f64 gen q t attrs = doc_build gen q t attrs.
+Proof.
+  intros H. unfold doc_build_f64, doc_build, doc_build_with.
+  rewrite (doc_decode_ext via_f64 keep_literal); [reflexivity|].
+  intros k v Hin. unfold keep_literal. apply via_f64_exact. exact (H k v Hin).
+Qed.
+
+Definition doc_witness_attrs : event :=
+  [(s2b "order_id", SInt 9007199254740993); (s2b "span_start_ns", SInt 1714352490251123457); (s2b "small", SInt 42)].
+Definition doc_witness_q : doc_req := {| dq_route := RDoc; dq_id := None; dq_type := []; dq_refresh := false |}.
+
+(* ... and a different one above: the two ES protocols would disagree on 64-bit ids and nanosecond epochs *)
+Theorem doc_f64_refuted : exists gen q t attrs k,
+  NoDup (map fst (es_build t attrs)) /\ k <> k_id /\ k <> k_type /\
+  lookup k (doc_build_f64 gen q t attrs) <> lookup k (es_build t attrs).
+Proof.
+  exists [], doc_witness_q, WNone, doc_witness_attrs, (s2b "order_id").
+  split; [|repeat split; vm_compute; congruence].
+  vm_compute. repeat constructor; cbn; intuition congruence.
+Qed.
+
+Lemma doc_f64_witness_values :
+  lookup (s2b "order_id") (doc_build_f64 [] doc_witness_q WNone doc_witness_attrs) = Some (SInt 9007199254740992) /\
+  lookup (s2b "span_start_ns") (doc_build_f64 [] doc_witness_q WNone doc_witness_attrs) = Some (SInt 1714352490251123500) /\
+  lookup (s2b "small") (doc_build_f64 [] doc_witness_q WNone doc_witness_attrs) = Some (SInt 42) /\
+  lookup (s2b "order_id") (doc_build [] doc_witness_q WNone doc_witness_attrs) = Some (SInt 9007199254740993) /\
+  lookup (s2b "span_start_ns") (doc_build [] doc_witness_q WNone doc_witness_attrs) = Some (SInt 1714352490251123457).
+Proof. repeat split; vm_compute; reflexivity. Qed.
+
+(* the time as well: a millisecond value above 2^53 moves *)
+Theorem doc_f64_time_refuted : exists gen q t attrs index,
+  NoDup (map fst (es_build t attrs)) /\
+  final_ts no_ext (doc_build_f64 gen q t attrs) index None 5 5 5 <> final_ts no_ext (es_build t attrs) index None 5 5 5.
+Proof.
+  exists [], doc_witness_q, (WNum 999999999999999999), [(s2b "cid", SStr (s2b "t"))], (s2b "ix").
+  split; [|vm_compute; congruence].
+  vm_compute. repeat constructor; cbn; intuition congruence.
+Qed.
+
+(* ----- the number a column holds (parseRawJsonObject): int64 or float64 ----- *)
+Theorem store_val_int64 z : in_int64 z = true -> store_val (SInt z) = SInt z.
+Proof. intros H. unfold store_val. rewrite H. reflexivity. Qed.
+
+Theorem store_val_not_int v : (forall z, v <> SInt z) -> store_val v = v.
+Proof. destruct v; intros H; try reflexivity. exfalso. exact (H z eq_refl). Qed.
+
+(* integers of the unsigned 64-bit range above int64 are rounded to 53 bits *)
+Theorem store_val_uint64_refuted : exists z, (9223372036854775808 <= z < 18446744073709551616)%Z /\
+  store_val (SInt z) <> SInt z.
+Proof. exists 9223372036854775809%Z. split; [lia|vm_compute; congruence]. Qed.
+
+Lemma store_val_values :
+  store_val (SInt 9223372036854775809) = SInt 9223372036854775808 /\
+  store_val (SInt 18446744073709551615) = SInt 18446744073709551616 /\
+  store_val (SInt 9223372036854775807) = SInt 9223372036854775807 /\
+  store_val (SInt (-9223372036854775808)) = SInt (-9223372036854775808) /\
+  store_val (SInt 100000000000000000000001) = SInt 100000000000000008388608.
+Proof. repeat split; vm_compute; reflexivity. Qed.
+
+Lemma doc_guards_satisfiable :
+  NoDup (map fst (es_build (WNum 1600000000123) doc_witness_attrs)) /\
+  (forall k v, In (k, v) (es_build WNone [(s2b "small", SInt 42); (s2b "note", SStr (s2b "x"))]) -> exact53 v = true) /\
+  in_int64 9007199254740993 = true.
+Proof.
+  split; [vm_compute; repeat constructor; cbn; intuition congruence|].
+  split; [|reflexivity].
+  intros k v [H|[H|[]]]; inversion H; reflexivity.
+Qed.
